@@ -180,7 +180,6 @@ Section Proofs.
   Variable hashf : Z -> bool -> Z.
   Variable choice : Z -> Z -> list Z.
   Variable rows : list row.
-  Variable feats : list Z.
 
   Hypothesis hash_inj :
     forall v b v' b', hashf v b = hashf v' b' -> v = v' /\ b = b'.
@@ -209,7 +208,7 @@ Section Proofs.
   Qed.
 
   (* ---- invalid events ---------------------------------------------------- *)
-  Lemma invalid_arr_spec rm :
+  Lemma invalid_arr_spec feats rm :
     invalid_arr rows feats rm = map (spec_invalid_row feats rm) rows.
   Proof.
     unfold invalid_arr, spec_invalid_row. destruct rm; [|reflexivity].
@@ -229,7 +228,7 @@ Section Proofs.
 
   Definition fmask (rg : ranges) (f : Z) : list bool := map (spec_feat rg f) rows.
 
-  Lemma box_one_spec cur bf f :
+  Lemma box_one_spec feats cur bf f :
     box_one rows feats cur bf f
     = if memZ f feats then dict_set f (fmask cur f) bf else bf.
   Proof.
@@ -270,9 +269,10 @@ Section Proofs.
       rewrite Hm. now left.
   Qed.
 
-  Lemma In_feat2filter cur old force f :
-    In f (feat2filter true cur old force) <->
-    In f (changed_keys cur old) \/ In f (removed_keys cur old) \/ In f force.
+  Lemma In_feat2filter fs bf cur old force f :
+    In f (feat2filter true true fs bf cur old force) <->
+    In f (changed_keys cur old) \/ In f (removed_keys cur old) \/ In f force
+    \/ In f (late_keys fs cur bf).
   Proof. unfold feat2filter. now rewrite nodup_In, !in_app_iff. Qed.
 
   Lemma rget_In rg f : rget rg f = (None, None) \/ In (f, rget rg f) rg.
@@ -340,13 +340,12 @@ Section Proofs.
   Qed.
 
   (* ---- the box cache ------------------------------------------------------ *)
+  (* every cached mask is the one of the settings of the last successful
+     application (the data of a feature never changes) *)
   Definition BoxInv (bf : list (Z * list bool)) (rg : ranges) : Prop :=
-    forall f m, In (f, m) bf -> In f feats /\ m = fmask rg f.
-  Definition BoxCov (bf : list (Z * list bool)) (rg : ranges) : Prop :=
-    forall f, In f feats -> has_key f bf = false ->
-              forall r, spec_feat rg f r = true.
+    forall f m, In (f, m) bf -> m = fmask rg f.
 
-  Lemma fold_box_In cur F : forall bf0 f m,
+  Lemma fold_box_In feats cur F : forall bf0 f m,
     (forall f m, In (f, m) bf0 -> In f feats) ->
     In (f, m) (fold_left (box_one rows feats cur) F bf0) ->
     (In f feats /\ m = fmask cur f) \/ (~ In f F /\ In (f, m) bf0).
@@ -367,7 +366,7 @@ Section Proofs.
         subst f0. apply Hk in Hin. apply memZ_In in Hin. congruence.
   Qed.
 
-  Lemma fold_box_keys cur F : forall bf0 f,
+  Lemma fold_box_keys feats cur F : forall bf0 f,
     has_key f (fold_left (box_one rows feats cur) F bf0)
     = has_key f bf0 || (memZ f F && memZ f feats).
   Proof.
@@ -384,25 +383,39 @@ Section Proofs.
         now rewrite !andb_false_r.
   Qed.
 
-  Lemma box_update_inv bf0 cur old force :
-    BoxInv bf0 old -> BoxCov bf0 old ->
+  (* after pruning (_init_rtdc_ds) and the refiltering loop every cached mask
+     belongs to a feature of the dataset and to the current settings, and a
+     feature without cached mask has no range key at all *)
+  Lemma box_update_inv feats bf_old cur old force :
+    BoxInv bf_old old ->
+    let bf0 := prune_box feats bf_old in
     let bf := fold_left (box_one rows feats cur)
-                        (feat2filter true cur old force) bf0 in
-    BoxInv bf cur /\ BoxCov bf cur.
+                        (feat2filter true true feats bf0 cur old force) bf0 in
+    (forall f m, In (f, m) bf -> In f feats /\ m = fmask cur f) /\
+    (forall f, In f feats -> has_key f bf = false ->
+               forall r, spec_feat cur f r = true).
   Proof.
-    intros HI HC bf. split.
-    - intros f m Hin. apply fold_box_In in Hin.
-      + destruct Hin as [Hg|[Hni Hin]]; [assumption|].
-        apply HI in Hin. destruct Hin as [Hf ->]. split; [assumption|].
-        rewrite In_feat2filter in Hni. unfold fmask. apply map_ext. intros r.
-        symmetry. apply unchanged_spec_feat; intuition.
-      + intros f' m' Hin'. now apply HI in Hin'.
+    intros HI bf0 bf.
+    assert (forall f m, In (f, m) bf0 -> In f feats) as Hk0.
+    { intros f m Hin. apply filter_In in Hin. destruct Hin as [_ Hm].
+      now apply memZ_In in Hm. }
+    split.
+    - intros f m Hin. apply fold_box_In in Hin; [|assumption].
+      destruct Hin as [Hg|[Hni Hin]]; [assumption|].
+      split; [now apply Hk0 in Hin|].
+      apply filter_In in Hin. destruct Hin as [Hin _]. apply HI in Hin. subst m.
+      rewrite In_feat2filter in Hni. unfold fmask. apply map_ext. intros r.
+      symmetry. apply unchanged_spec_feat; intuition.
     - intros f Hf Hk r. unfold bf in Hk. rewrite fold_box_keys in Hk.
-      apply orb_false_iff in Hk. destruct Hk as [Hk0 Hk1].
+      apply orb_false_iff in Hk. destruct Hk as [Hk0' Hk1].
       pose proof Hf as Hf'. apply memZ_In in Hf'. rewrite Hf', andb_true_r in Hk1.
       apply memZ_false in Hk1. rewrite In_feat2filter in Hk1.
-      rewrite (unchanged_spec_feat cur old f) by intuition.
-      now apply HC.
+      assert (has_any_key cur f = false) as Hany.
+      { destruct (has_any_key cur f) eqn:E; [|reflexivity]. exfalso.
+        apply Hk1. right. right. right. unfold late_keys. apply filter_In.
+        split; [assumption|]. now rewrite Hk0', E. }
+      unfold has_any_key in Hany. unfold spec_feat.
+      destruct (rget cur f) as [[lo|] [hi|]]; try discriminate. reflexivity.
   Qed.
 
   Lemma masks_of_keys {V} (d : list (Z * V)) (get : V -> list bool)
@@ -414,8 +427,10 @@ Section Proofs.
     now apply H.
   Qed.
 
-  Lemma box_array_spec bf cur :
-    BoxInv bf cur -> BoxCov bf cur ->
+  Lemma box_array_spec feats bf cur :
+    (forall f m, In (f, m) bf -> In f feats /\ m = fmask cur f) ->
+    (forall f, In f feats -> has_key f bf = false ->
+               forall r, spec_feat cur f r = true) ->
     fold_left band (map snd bf) ones = map (spec_box_row feats cur) rows.
   Proof.
     intros HI HC.
@@ -654,30 +669,28 @@ Section Proofs.
   (* ---- the invariant of the filter object -------------------------------- *)
   Definition Inv (w : world) : Prop :=
     BoxInv (box_filters (flt w)) (old_rng (flt w)) /\
-    BoxCov (box_filters (flt w)) (old_rng (flt w)) /\
     NoDup (map fst (poly_filters (flt w))) /\
     PolyInv (poly_filters (flt w)) /\
     (forall f, half_set (old_rng (flt w)) f = false).
 
-  Notation step := (step hashf choice rows feats true).
-  Notation update := (update hashf choice rows feats true).
-  Notation run := (run hashf choice rows feats true).
+  Notation step := (step hashf choice rows HEAD).
+  Notation update := (update hashf choice rows HEAD).
+  Notation run := (run hashf choice rows HEAD).
 
-  Lemma Inv_reset c rg e :
-    Inv {| cfg := c; reg := rg; flt := reset_fstate rows; err := e |}.
+  Lemma Inv_reset c rg fs e :
+    Inv {| cfg := c; reg := rg; flt := reset_fstate rows; feats := fs; err := e |}.
   Proof.
-    unfold Inv. cbn. split; [|split; [|split; [|split]]].
+    unfold Inv. cbn. split; [|split; [|split]].
     - intros f m [].
-    - intros f _ _ r. reflexivity.
     - constructor.
     - intros id h m [].
     - reflexivity.
   Qed.
 
   (* the application raises iff some range has exactly one of its keys *)
-  Lemma raises_iff cur old force :
+  Lemma raises_iff fs bf cur old force :
     (forall f, half_set old f = false) ->
-    existsb (half_set cur) (feat2filter true cur old force) = true
+    existsb (half_set cur) (feat2filter true true fs bf cur old force) = true
     <-> exists f, half_set cur f = true.
   Proof.
     intros Ho. rewrite existsb_exists. split.
@@ -692,46 +705,57 @@ Section Proofs.
     let w' := update w force in
     Inv w' /\
     cfg w' = cfg w /\ reg w' = reg w /\ manual (flt w') = manual (flt w) /\
+    feats w' = feats w /\
     (err w' = true <-> exists f, half_set (rng (cfg w)) f = true) /\
     (err w' = false ->
-     a_box (flt w') = spec_box rows feats w /\
-     a_invalid (flt w') = spec_invalid rows feats w /\
+     a_box (flt w') = spec_box rows w /\
+     a_invalid (flt w') = spec_invalid rows w /\
      a_polygon (flt w') = spec_polygon rows w /\
-     a_all (flt w') = spec_all choice rows feats w).
+     a_all (flt w') = spec_all choice rows w).
   Proof.
-    intros [HBI [HBC [HND [HPI HOP]]]].
-    pose proof (raises_iff (rng (cfg w)) _ force HOP) as Hraise.
-    cbn zeta. unfold C03.update.
+    intros [HBI [HND [HPI HOP]]].
+    pose proof (raises_iff (feats w) (prune_box (feats w) (box_filters (flt w)))
+                           (rng (cfg w)) _ force HOP) as Hraise.
+    cbn zeta. unfold C03.update. cbn [precheck see_removed late_feats HEAD].
     destruct (existsb (half_set (rng (cfg w)))
-                      (feat2filter true (rng (cfg w)) (old_rng (flt w)) force)) eqn:Eh;
-      cbn [cfg reg flt err box_filters poly_filters old_rng
+                (feat2filter true true (feats w)
+                   (prune_box (feats w) (box_filters (flt w)))
+                   (rng (cfg w)) (old_rng (flt w)) force)) eqn:Eh;
+      cbn [cfg reg flt err feats box_filters poly_filters old_rng
            a_all a_box a_polygon a_invalid manual].
     - (* ValueError *)
       split.
       { unfold Inv. cbn [flt box_filters poly_filters old_rng].
-        split; [assumption|]. split; [assumption|].
+        split.
+        { intros f m Hin. apply filter_In in Hin. destruct Hin as [Hin _].
+          now apply HBI in Hin. }
         split; [now apply NoDup_keys_filter|]. split; [|assumption].
         intros id h m Hin. apply filter_In in Hin. destruct Hin as [Hin _].
         now apply HPI in Hin. }
       split; [reflexivity|]. split; [reflexivity|]. split; [reflexivity|].
+      split; [reflexivity|].
       split; [|discriminate]. split; [intros _; now apply Hraise|reflexivity].
-    - destruct (box_update_inv _ (rng (cfg w)) _ force HBI HBC) as [HBI' HBC'].
+    - destruct (box_update_inv (feats w) _ (rng (cfg w)) _ force HBI) as [HBI' HBC'].
       destruct (poly_update_spec (reg w) (polys (cfg w)) _ HND HPI)
         as [HND' [HPI' Hpoly]].
-      pose proof (box_array_spec _ _ HBI' HBC') as Hbox.
+      pose proof (box_array_spec _ _ _ HBI' HBC') as Hbox.
       assert (forall f, half_set (rng (cfg w)) f = false) as HOP'.
       { intros f. destruct (half_set (rng (cfg w)) f) eqn:E; [|reflexivity].
         assert (false = true) as Hc by (apply Hraise; now exists f).
         discriminate Hc. }
-      split; [exact (conj HBI' (conj HBC' (conj HND' (conj HPI' HOP'))))|].
+      split.
+      { unfold Inv. cbn [flt box_filters poly_filters old_rng].
+        split; [|exact (conj HND' (conj HPI' HOP'))].
+        intros f m Hin. now apply HBI' in Hin. }
       split; [reflexivity|]. split; [reflexivity|]. split; [reflexivity|].
+      split; [reflexivity|].
       split.
       { split; [discriminate|]. intros [f Hf]. now rewrite HOP' in Hf. }
       intros _.
       split; [exact Hbox|]. split; [apply invalid_arr_spec|]. split; [exact Hpoly|].
       unfold spec_all. destruct (enable (cfg w)); [|reflexivity].
       rewrite Hbox, Hpoly, invalid_arr_spec, !band_map.
-      fold (spec_qual rows feats w).
+      fold (spec_qual rows w).
       destruct (0 <? limit (cfg w)) eqn:El; [|reflexivity].
       rewrite limit_events_spec by lia. reflexivity.
   Qed.
@@ -749,62 +773,62 @@ Section Proofs.
     apply IH. now apply step_Inv.
   Qed.
 
-  Lemma history rg0 ops force :
-    let w := run (init_world rows rg0) ops in
+  Lemma history rg0 fs0 ops force :
+    let w := run (init_world rows rg0 fs0) ops in
     let w' := update w force in
     (err w' = true <-> exists f, half_set (rng (cfg w)) f = true) /\
     (err w' = false ->
-     a_all (flt w') = spec_all choice rows feats w /\
-     a_box (flt w') = spec_box rows feats w /\
+     a_all (flt w') = spec_all choice rows w /\
+     a_box (flt w') = spec_box rows w /\
      a_polygon (flt w') = spec_polygon rows w /\
-     a_invalid (flt w') = spec_invalid rows feats w).
+     a_invalid (flt w') = spec_invalid rows w).
   Proof.
     cbn zeta.
-    assert (Inv (run (init_world rows rg0) ops)) as H
+    assert (Inv (run (init_world rows rg0 fs0) ops)) as H
         by (apply run_Inv; apply Inv_reset).
-    destruct (update_correct _ force H) as [_ [_ [_ [_ [He Hok]]]]].
+    destruct (update_correct _ force H) as [_ [_ [_ [_ [_ [He Hok]]]]]].
     split; [exact He|]. intros Hne.
     destruct (Hok Hne) as [Hb [Hi [Hp Ha]]]. auto.
   Qed.
 
-  Lemma history_ok rg0 ops force :
-    let w := run (init_world rows rg0) ops in
+  Lemma history_ok rg0 fs0 ops force :
+    let w := run (init_world rows rg0 fs0) ops in
     let w' := update w force in
     err w' = false ->
-    a_all (flt w') = spec_all choice rows feats w /\
-    a_box (flt w') = spec_box rows feats w /\
+    a_all (flt w') = spec_all choice rows w /\
+    a_box (flt w') = spec_box rows w /\
     a_polygon (flt w') = spec_polygon rows w /\
-    a_invalid (flt w') = spec_invalid rows feats w.
-  Proof. exact (proj2 (history rg0 ops force)). Qed.
+    a_invalid (flt w') = spec_invalid rows w.
+  Proof. exact (proj2 (history rg0 fs0 ops force)). Qed.
 
-  Lemma history_raises rg0 ops force :
-    let w := run (init_world rows rg0) ops in
+  Lemma history_raises rg0 fs0 ops force :
+    let w := run (init_world rows rg0 fs0) ops in
     err (update w force) = true <-> exists f, half_set (rng (cfg w)) f = true.
-  Proof. exact (proj1 (history rg0 ops force)). Qed.
+  Proof. exact (proj1 (history rg0 fs0 ops force)). Qed.
 
   (* limit events: exactly min(limit, #qualifying) events remain, all of them
      qualifying *)
   Lemma limit_exact w :
     choice_spec -> enable (cfg w) = true -> 0 < limit (cfg w) ->
-    count_true (spec_all choice rows feats w)
-    = Z.min (limit (cfg w)) (count_true (spec_qual rows feats w)) /\
+    count_true (spec_all choice rows w)
+    = Z.min (limit (cfg w)) (count_true (spec_qual rows w)) /\
     Forall2 (fun a q => a = true -> q = true)
-            (spec_all choice rows feats w) (spec_qual rows feats w).
+            (spec_all choice rows w) (spec_qual rows w).
   Proof.
     intros Hc He Hl. unfold spec_all. rewrite He.
     replace (0 <? limit (cfg w)) with true by lia. cbn [andb].
-    destruct (limit (cfg w) <? count_true (spec_qual rows feats w)) eqn:E.
+    destruct (limit (cfg w) <? count_true (spec_qual rows w)) eqn:E.
     - split; [|apply thin_subset]. rewrite thin_exact by (assumption || lia). lia.
-    - split; [lia|]. clear E. induction (spec_qual rows feats w); constructor; auto.
+    - split; [lia|]. clear E. induction (spec_qual rows w); constructor; auto.
   Qed.
 
   Lemma disabled_all w :
-    enable (cfg w) = false -> spec_all choice rows feats w = ones.
+    enable (cfg w) = false -> spec_all choice rows w = ones.
   Proof. intros H. unfold spec_all. now rewrite H. Qed.
 
   Lemma no_limit_all w :
     enable (cfg w) = true -> limit (cfg w) <= 0 ->
-    spec_all choice rows feats w = spec_qual rows feats w.
+    spec_all choice rows w = spec_qual rows w.
   Proof.
     intros He Hl. unfold spec_all. rewrite He.
     replace (0 <? limit (cfg w)) with false by lia. reflexivity.
@@ -813,59 +837,61 @@ Section Proofs.
   (* the selection is a function of the settings only *)
   Lemma spec_all_settings w1 w2 :
     cfg w1 = cfg w2 -> reg w1 = reg w2 -> manual (flt w1) = manual (flt w2) ->
-    spec_all choice rows feats w1 = spec_all choice rows feats w2.
+    feats w1 = feats w2 ->
+    spec_all choice rows w1 = spec_all choice rows w2.
   Proof.
-    intros Hc Hr Hm. unfold spec_all, spec_qual. now rewrite Hc, Hr, Hm.
+    intros Hc Hr Hm Hf. unfold spec_all, spec_qual. now rewrite Hc, Hr, Hm, Hf.
   Qed.
 
-  Lemma history_reproducible rg1 ops1 force1 rg2 ops2 force2 :
-    let w1 := run (init_world rows rg1) ops1 in
-    let w2 := run (init_world rows rg2) ops2 in
+  Lemma history_reproducible rg1 fs1 ops1 force1 rg2 fs2 ops2 force2 :
+    let w1 := run (init_world rows rg1 fs1) ops1 in
+    let w2 := run (init_world rows rg2 fs2) ops2 in
     cfg w1 = cfg w2 -> reg w1 = reg w2 -> manual (flt w1) = manual (flt w2) ->
+    feats w1 = feats w2 ->
     err (update w1 force1) = false -> err (update w2 force2) = false ->
     a_all (flt (update w1 force1)) = a_all (flt (update w2 force2)).
   Proof.
-    cbn zeta. intros Hc Hr Hm He1 He2.
-    destruct (history rg1 ops1 force1) as [_ H1].
-    destruct (history rg2 ops2 force2) as [_ H2].
+    cbn zeta. intros Hc Hr Hm Hf He1 He2.
+    destruct (history rg1 fs1 ops1 force1) as [_ H1].
+    destruct (history rg2 fs2 ops2 force2) as [_ H2].
     cbn zeta in H1, H2. destruct (H1 He1) as [-> _]. destruct (H2 He2) as [-> _].
     now apply spec_all_settings.
   Qed.
 
-  Lemma history_limit rg0 ops force :
+  Lemma history_limit rg0 fs0 ops force :
     choice_spec ->
-    let w := run (init_world rows rg0) ops in
+    let w := run (init_world rows rg0 fs0) ops in
     let w' := update w force in
     err w' = false ->
     enable (cfg w) = true -> 0 < limit (cfg w) ->
     count_true (a_all (flt w'))
-    = Z.min (limit (cfg w)) (count_true (spec_qual rows feats w)) /\
+    = Z.min (limit (cfg w)) (count_true (spec_qual rows w)) /\
     Forall2 (fun a q => a = true -> q = true)
-            (a_all (flt w')) (spec_qual rows feats w).
+            (a_all (flt w')) (spec_qual rows w).
   Proof.
     cbn zeta. intros Hc Hne He Hl.
-    destruct (history rg0 ops force) as [_ H]. cbn zeta in H.
+    destruct (history rg0 fs0 ops force) as [_ H]. cbn zeta in H.
     destruct (H Hne) as [-> _]. now apply limit_exact.
   Qed.
 
-  Lemma history_disabled rg0 ops force :
-    let w := run (init_world rows rg0) ops in
+  Lemma history_disabled rg0 fs0 ops force :
+    let w := run (init_world rows rg0 fs0) ops in
     err (update w force) = false ->
     enable (cfg w) = false -> a_all (flt (update w force)) = ones.
   Proof.
     cbn zeta. intros Hne He.
-    destruct (history rg0 ops force) as [_ H]. cbn zeta in H.
+    destruct (history rg0 fs0 ops force) as [_ H]. cbn zeta in H.
     destruct (H Hne) as [-> _]. now apply disabled_all.
   Qed.
 
-  Lemma history_no_limit rg0 ops force :
-    let w := run (init_world rows rg0) ops in
+  Lemma history_no_limit rg0 fs0 ops force :
+    let w := run (init_world rows rg0 fs0) ops in
     err (update w force) = false ->
     enable (cfg w) = true -> limit (cfg w) <= 0 ->
-    a_all (flt (update w force)) = spec_qual rows feats w.
+    a_all (flt (update w force)) = spec_qual rows w.
   Proof.
     cbn zeta. intros Hne He Hl.
-    destruct (history rg0 ops force) as [_ H]. cbn zeta in H.
+    destruct (history rg0 fs0 ops force) as [_ H]. cbn zeta in H.
     destruct (H Hne) as [-> _]. now apply no_limit_all.
   Qed.
 End Proofs.
@@ -902,20 +928,26 @@ Definition refute_rows : list row := [ {| vals := [Fin 8]; pins := [] |} ].
 Definition refute_ops : list op :=
   [SetMin 0 (Fin 2); SetMax 0 (Fin 6); Apply []; DelMin 0; DelMax 0].
 
+(* the code before 1ad19c0, between 1ad19c0 and 2db14c2, and before the
+   late-feature repair *)
+Definition V0 : variant := {| see_removed := false; precheck := false; late_feats := false |}.
+Definition V1 : variant := {| see_removed := true; precheck := false; late_feats := false |}.
+Definition V2 : variant := {| see_removed := true; precheck := true; late_feats := false |}.
+
 Lemma unrepaired_refuted :
   forall hashf choice,
-    let w := run hashf choice refute_rows [0] false
-                 (init_world refute_rows []) refute_ops in
-    a_all (flt (update hashf choice refute_rows [0] false w []))
-    <> spec_all choice refute_rows [0] w.
-Proof. intros hashf choice. vm_compute. discriminate. Qed.
+    let w := run hashf choice refute_rows V0
+                 (init_world refute_rows [] [0]) refute_ops in
+    let w' := update hashf choice refute_rows V0 w [] in
+    err w' = false /\ a_all (flt w') <> spec_all choice refute_rows w.
+Proof. intros hashf choice. vm_compute. split; [reflexivity|discriminate]. Qed.
 
 (* the same history on the repaired code *)
 Example repaired_history :
   forall hashf choice,
-    let w := run hashf choice refute_rows [0] true
-                 (init_world refute_rows []) refute_ops in
-    a_all (flt (update hashf choice refute_rows [0] true w [])) = [true].
+    let w := run hashf choice refute_rows HEAD
+                 (init_world refute_rows [] [0]) refute_ops in
+    a_all (flt (update hashf choice refute_rows HEAD w [])) = [true].
 Proof. intros hashf choice. vm_compute. reflexivity. Qed.
 
 (* ---- non-vacuity --------------------------------------------------------- *)
@@ -966,10 +998,10 @@ Definition ex_ops : list op :=
    a reversed range, NaN, a tie with a bound, a polygon inverted twice, a
    manual exclusion and an active limit *)
 Example ex_history_values :
-  let w := run mk_hash first_k ex_rows [0; 1] true (init_world ex_rows [(7, (0, false))]) ex_ops in
-  (enable (cfg w), limit (cfg w), spec_qual ex_rows [0; 1] w,
-   err (update mk_hash first_k ex_rows [0; 1] true w []),
-   a_all (flt (update mk_hash first_k ex_rows [0; 1] true w [])))
+  let w := run mk_hash first_k ex_rows HEAD (init_world ex_rows [(7, (0, false))] [0; 1]) ex_ops in
+  (enable (cfg w), limit (cfg w), spec_qual ex_rows w,
+   err (update mk_hash first_k ex_rows HEAD w []),
+   a_all (flt (update mk_hash first_k ex_rows HEAD w [])))
   = (true, 2, [false; false; false; false; true; false; true; true], false,
      [false; false; false; false; true; false; true; false]).
 Proof. vm_compute. reflexivity. Qed.
@@ -986,9 +1018,42 @@ Definition exc_ops : list op :=
 
 Example exception_safe_history :
   forall hashf choice,
-    let w1 := run hashf choice exc_rows [0; 1] true (init_world exc_rows [])
+    let w1 := run hashf choice exc_rows HEAD (init_world exc_rows [] [0; 1])
                   (firstn 7 exc_ops) in
-    let w := run hashf choice exc_rows [0; 1] true (init_world exc_rows []) exc_ops in
-    let w' := update hashf choice exc_rows [0; 1] true w [] in
-    err w1 = true /\ err w' = false /\ a_all (flt w') = [true; true; false; false].
+    let w := run hashf choice exc_rows HEAD (init_world exc_rows [] [0; 1]) exc_ops in
+    let w' := update hashf choice exc_rows HEAD w [] in
+    err w1 = true /\ err w' = false /\ a_all (flt w') = [true; true; false; false]
+    /\ a_all (flt w') = spec_all choice exc_rows w.
+Proof. intros hashf choice. vm_compute. auto. Qed.
+
+(* the code before 2db14c2 (pairing check inside the loop): the application
+   in the middle raises after the box filter of feature 0 was recomputed for
+   [3, 4]; restoring [1, 2] is not noticed *)
+Lemma sequential_raise_refuted :
+  forall hashf choice,
+    let w := run hashf choice exc_rows V1 (init_world exc_rows [] [0; 1]) exc_ops in
+    let w' := update hashf choice exc_rows V1 w [] in
+    err w' = false /\ a_all (flt w') <> spec_all choice exc_rows w.
+Proof. intros hashf choice. vm_compute. split; [reflexivity|discriminate]. Qed.
+
+(* the code without the late-feature repair: a range is configured and applied
+   while its feature (number 1) is not yet part of the dataset; once the
+   feature exists the range is still not applied *)
+Definition late_ops : list op :=
+  [ SetMin 1 (Fin 2); SetMax 1 (Fin 4); Apply []; AddFeat 1 ].
+
+Lemma late_feature_refuted :
+  forall hashf choice,
+    let w := run hashf choice exc_rows V2 (init_world exc_rows [] [0]) late_ops in
+    let w' := update hashf choice exc_rows V2 w [] in
+    err w' = false /\ a_all (flt w') <> spec_all choice exc_rows w.
+Proof. intros hashf choice. vm_compute. split; [reflexivity|discriminate]. Qed.
+
+Example late_feature_history :
+  forall hashf choice,
+    let w := run hashf choice exc_rows HEAD (init_world exc_rows [] [0])
+                 (late_ops ++ [Apply []; DelFeat 1; Apply []; AddFeat 1]) in
+    let w' := update hashf choice exc_rows HEAD w [] in
+    err w' = false /\ a_all (flt w') = [false; true; true; false]
+    /\ a_all (flt w') = spec_all choice exc_rows w.
 Proof. intros hashf choice. vm_compute. auto. Qed.
